@@ -87,7 +87,8 @@ theorem InvC.set_unsat {vars cons n} {ia : Array Nat} (h : InvC vars cons n ia) 
   have htc := toC_set cons x { cons[x]! with unsat := true } ⟨rfl, rfl, rfl, rfl⟩
   refine
     { outs_sound := ?_, outs_complete := ?_, ins_sound := ?_, ins_complete := ?_, tight := ?_,
-      bridge := ?_, conn := ?_, fresh := h.fresh, cover := ?_, inact_lt := ?_, flags := ?_ }
+      bridge := ?_, conn := ?_, fresh := h.fresh, cover := ?_, inact_lt := ?_, flags := ?_,
+      outs_nodup := h.outs_nodup, ins_nodup := h.ins_nodup }
   · intro u j hj
     obtain ⟨a, b⟩ := h.outs_sound u j hj
     exact ⟨by rw [hsz]; exact a, by rw [(hd j).1.1]; exact b⟩
